@@ -1,0 +1,9 @@
+//go:build !verif
+
+// Package verifhook provides named perturbation points for the runtime
+// monitors kept in /verif. Without the "verif" build tag every hook is an
+// empty function that the compiler inlines away.
+package verifhook
+
+// At marks a perturbation point. It does nothing in this build.
+func At(point string) {}
